@@ -330,7 +330,10 @@ pub fn c15_case(dir: &Path, n: usize, word: &[CEv]) -> Result<String, V> {
         // many short-lived connections, each doing several commands and ending in turn by close, by
         // reset, and after a bad command: the accounting must come out even after any number of them
         let set = Req::Set(b"cyc".to_vec(), b"1".to_vec()).encode();
-        for cyc in 0..tier_cycles() {
+        // (one word in a few hundred gets a LONG run instead: counters that go wrong after 256 / 1 024 /
+        // 65 536 connections)
+        let ncyc = if LONG_CYCLES.swap(0, Ordering::SeqCst) > 0 { tier_cycles_long() } else { tier_cycles() };
+        for cyc in 0..ncyc {
             let mut s = srv.connect().map_err(|e| mach(format!("connect: {}", e)))?;
             for _ in 0..(cyc % 3) + 1 {
                 s.write_all(&get).map_err(|e| mach(e.to_string()))?;
@@ -402,6 +405,12 @@ static C15_CYCLES: std::sync::atomic::AtomicUsize = std::sync::atomic::AtomicUsi
 fn tier_cycles() -> usize {
     C15_CYCLES.load(Ordering::SeqCst)
 }
+static C15_CYCLES_LONG: std::sync::atomic::AtomicUsize = std::sync::atomic::AtomicUsize::new(1100);
+fn tier_cycles_long() -> usize {
+    C15_CYCLES_LONG.load(Ordering::SeqCst)
+}
+/// set to 1 by the driver before a word that is to get the long run
+static LONG_CYCLES: std::sync::atomic::AtomicUsize = std::sync::atomic::AtomicUsize::new(0);
 
 fn check_c15_state(srv: &Srv, model: &[MConn], cl: &mut [CConn], e0: u64, n: usize, step: usize, word: &[CEv]) -> Result<(), V> {
     let ctx = |s: &str| format!("{} | after event {} ({:?}) of {:?}, max_connections {}", s, step, word[step], word, n);
@@ -476,6 +485,7 @@ pub fn c15(job: &Job, sh: &mut Shard, t0: Instant) {
         Tier::Thorough => vec![(1, 7, 4), (2, 7, 4), (3, 6, 4), (2, 8, 4), (101, 7, 3), (102, 7, 4), (103, 6, 4)],
     };
     C15_CYCLES.store(job.tier.pick(4, 24), Ordering::SeqCst);
+    C15_CYCLES_LONG.store(job.tier.pick(1100, 70_000), Ordering::SeqCst);
     let dir = job.scratch().join("store");
     for (n, len, maxc) in plans {
         // N + 100: the plan with commands in flight (kinds Get / Busy / BigGet, events close / reset / finish)
@@ -491,7 +501,7 @@ pub fn c15(job: &Job, sh: &mut Shard, t0: Instant) {
                 sh.notes.insert(format!("stopped (time cap or 6 violations in this shard) in N={} len={} after {} of {} words", n, len, i, words.len()));
                 return;
             }
-            let case = json!({"engine": "net", "kind": "c15", "n": n, "word": w.iter().map(|e| format!("{:?}", e)).collect::<Vec<_>>()});
+            let case = json!({"engine": "net", "kind": "c15", "n": n, "word": w.iter().map(|e| format!("{:?}", e)).collect::<Vec<_>>(), "long_run": i / job.nshards % 200 == 0});
             if i % 16 == job.shard % 16 {
                 job.progress(&case);
             }
@@ -506,10 +516,21 @@ pub fn c15(job: &Job, sh: &mut Shard, t0: Instant) {
             }
             sh.nontrivial.insert(fnv(format!("{}{:?}", n, w).as_bytes()));
             *sh.counters.entry(format!("words:N={},len={}", n, len)).or_insert(0) += 1;
+            // the first word of this worker in every plan, and every 200th after it, gets the long run
+            let long = i / job.nshards % 200 == 0;
+            if long {
+                LONG_CYCLES.store(1, Ordering::SeqCst);
+                sh.count("words-with-a-long-run-of-connections", 1);
+            }
             match c15_case(&dir, n, w) {
                 Ok(o) => sh.outcome(format!("N={} {}", n, o)),
                 Err((c, msg)) if c == "MACHINERY" => sh.machinery_errors.push(format!("C15 {}", msg)),
-                Err((c, msg)) => match c15_case(&dir, n, w) {
+                Err((c, msg)) => match {
+                    if long {
+                        LONG_CYCLES.store(1, Ordering::SeqCst);
+                    }
+                    c15_case(&dir, n, w)
+                } {
                     Err((c2, _)) if c2 == c => sh.violate(Violation { class: format!("C15:{}", c), msg: if msg.contains("max_connections") { msg } else { format!("{} | after the word {:?}, max_connections {}", msg, w, n) }, case }),
                     other => sh.machinery_errors.push(format!("C15 violation {} not reproduced ({:?}): {}", c, other.map_err(|e| e.0), msg)),
                 },
@@ -2115,6 +2136,9 @@ pub fn replay(prop: &str, case: &Value, dir: &Path) -> Vec<Violation> {
         "c15" => {
             let n = case["n"].as_u64().unwrap_or(1) as usize;
             let w: Vec<CEv> = case["word"].as_array().map(|a| a.iter().filter_map(|x| x.as_str().and_then(parse_cev)).collect()).unwrap_or_default();
+            if case["long_run"].as_bool().unwrap_or(false) {
+                LONG_CYCLES.store(1, Ordering::SeqCst);
+            }
             push(c15_case(dir, n, &w));
         }
         "c11" => {
